@@ -333,6 +333,22 @@ func scenC18(k *K) {
 		}
 		k.W.Stat("close-moment:" + momentName)
 	}
+	// closing the instance: in a third of the runs with several databases the cache of one
+	// of them reports an I/O error when it is closed (and is released all the same)
+	if action == 1 && ndb > 1 && k.C.Chance(1, 3) {
+		victim := spaceForAddress(P.Node.Disk, dbs[k.C.Intn(ndb)].addr)
+		nd := P.Node
+		k.W.mu.Lock()
+		k.W.DiskFault = func(on *Node, kind, space, key string) error {
+			if on == nd && kind == "cache-close" && space == victim {
+				return fmt.Errorf("sim: i/o error on close")
+			}
+			return nil
+		}
+		k.W.mu.Unlock()
+		k.cleanups = append(k.cleanups, func() { k.W.mu.Lock(); k.W.DiskFault = nil; k.W.mu.Unlock() })
+		k.W.Stat("cache-close-error-on-one-database")
+	}
 	k.Wait()
 	atClose := sutGoroutines()
 	// ---- the action, repeated ----
